@@ -334,7 +334,39 @@ def uniqueness(res, tier, search):
             res.violate("duplicate-reference", "orders created under the simulated clock repeat references", {"mode": "simulated"})
     finally:
         config.simulated = False
-    res.evaluations += n + len(allr) + len(refs2)
+    # coarse / frozen system clock (a platform whose wall clock ticks every 15.6 ms, or a test harness that freezes it):
+    # distinctness must not rest on the clock having advanced between two orders
+    import time as _time
+    real = {k: getattr(_time, k) for k in ("time_ns", "time", "monotonic_ns", "monotonic", "perf_counter_ns", "perf_counter")}
+    refs3 = []
+    for tick_ns in (15_600_000, 10**12):
+        base = real["time_ns"]()
+        coarse = lambda base=base, tick_ns=tick_ns: base + ((real["time_ns"]() - base) // tick_ns) * tick_ns
+        try:
+            _time.time_ns = coarse
+            _time.time = lambda: coarse() / 1e9
+            _time.monotonic_ns = coarse
+            _time.monotonic = lambda: coarse() / 1e9
+            _time.perf_counter_ns = coarse
+            _time.perf_counter = lambda: coarse() / 1e9
+            burst = []
+            make(20000, burst)
+            sinks3 = [[] for _ in range(4)]
+            ths3 = [threading.Thread(target=make, args=(5000, s)) for s in sinks3]
+            for t in ths3:
+                t.start()
+            for t in ths3:
+                t.join()
+            burst += [r for s in sinks3 for r in s]
+        finally:
+            for k, v in real.items():
+                setattr(_time, k, v)
+        res.runtime_observations["coarse_clock_tick_%dns_%d_refs_distinct" % (tick_ns, len(burst))] = len(set(burst)) == len(burst)
+        if len(set(burst)) != len(burst):
+            res.violate("duplicate-reference", "%d orders created while the system clock ticks every %d ns carry %d distinct references" % (
+                len(burst), tick_ns, len(set(burst))), {"mode": "coarse-clock", "tick_ns": tick_ns})
+        refs3 += burst
+    res.evaluations += n + len(allr) + len(refs2) + len(refs3)
     if max(len(r) for r in refs + allr + refs2) > 32:
         res.violate("reference-too-long", "a reference longer than 32 characters", {"mode": "loop"})
 
@@ -343,7 +375,7 @@ def run(res, tier, seed, model_ok, search):
     res.rule = ("separators: '', every code point 0..255, unicode digits/letters, two-character strings, random strings, through the static check, "
                 "the constructor and the setter; references of real orders of real strategies with empty / unicode / 1500-character names and "
                 "every accepted separator (digits and hex letters included); op sequences (register strategy | order-stream update) on a second "
-                "real Flumine instance; ids from tight loops, 8 threads, simulated clock. non-trivial = valid separator / distinct reference / "
+                "real Flumine instance; ids from tight loops, 8 threads, simulated clock, coarse (15.6 ms) and frozen system clock. non-trivial = valid separator / distinct reference / "
                 "case with creation and later lookup")
     run_pure(res, tier, seed, model_ok, search)
     run_instances(res, tier, seed, model_ok, search)
